@@ -5,7 +5,7 @@ from ..runner import Violation, digest
 from ..ref import wire as W, hashes as H, sighash as RS, script as S
 from .. import libx, gen
 
-from bitcoin.core import CTransaction
+from bitcoin.core import CTransaction, CMutableTxOut
 from bitcoin.core.script import CScript, RawSignatureHash, SignatureHash
 
 ID = 'C03'
@@ -80,6 +80,32 @@ def check_case(case):
         raise Violation('mutated/ids', 'identifiers of the transaction changed after signature hashing')
     if bytes(csc) != sc:
         raise Violation('mutated/script', 'subscript changed')
+    if case['mutable'] is True and idx < len(m['vin']):
+        # the digest follows in-place edits of the SAME mutable transaction object (hash, edit, hash again - a fee bump that is
+        # signed again), and consecutive calls that differ only in the input index answer for their own index
+        m2 = dict(m, vin=[tuple(i) for i in m['vin']], vout=[tuple(o) for o in m['vout']])
+        for ed in ('locktime', 'seq', 'value', 'prevout', 'version', 'addout', 'delout'):
+            if ed == 'locktime':
+                m2['locktime'] ^= 1; tx.nLockTime = m2['locktime']
+            elif ed == 'version':
+                m2['version'] = (m2['version'] + 1) if m2['version'] < 2 ** 31 - 1 else 0; tx.nVersion = m2['version']
+            elif ed == 'seq':
+                j = (idx + 1) % len(m2['vin']); h_, n_, s_, q_ = m2['vin'][j]; m2['vin'][j] = (h_, n_, s_, q_ ^ 1); tx.vin[j].nSequence = q_ ^ 1
+            elif ed == 'prevout':
+                j = (idx + 1) % len(m2['vin']); h_, n_, s_, q_ = m2['vin'][j]; m2['vin'][j] = (h_, n_ ^ 1, s_, q_); tx.vin[j].prevout.n = n_ ^ 1
+            elif ed == 'value' and m2['vout']:
+                v_, s_ = m2['vout'][-1]; m2['vout'][-1] = (v_ ^ 1, s_); tx.vout[-1].nValue = v_ ^ 1
+            elif ed == 'addout':
+                m2['vout'].append((7, b'\x51')); tx.vout.append(CMutableTxOut(7, CScript(b'\x51')))
+            elif ed == 'delout' and len(m2['vout']) > 1:
+                del m2['vout'][0]; del tx.vout[0]
+            for ht in (1, 3, 2, 0x81, 0x83):
+                for j in ([idx] if ht != 3 else range(len(m2['vin']))):
+                    want, ok = RS.legacy(sc, m2, j, ht)
+                    got = libx.call('raw-after-edit', RawSignatureHash, csc, tx, j, ht)[1]
+                    if got[0] != want or (got[1] is None) != ok:
+                        raise Violation('raw/digest-stale-after-edit/%s' % ed, 'after editing %s of the same CMutableTransaction the legacy digest '
+                                        '(ht=0x%02x, input %d) is not the digest of the current fields' % (ed, ht, j))
     hassep = any(op == 0xab for op, _, _, _ in S.tokens(sc)[0])
     return {'nt': hassep or (len(m['vin']) >= 2 and len(m['vout']) >= 2), 'evals': 512 if not wshape else 256,
             'cls': sorted(cls) + (['sep'] if hassep else []) + (['witness-shaped-skip'] if wshape else [])}
@@ -166,7 +192,19 @@ def t_main(ctx):
              'vout': [[i, '51'] for i in range(nin - 1)], 'wit': None, 'locktime': 7}
         for idx in sorted(i_ for i_ in {0, 255, 256, 257, nin - 1, nin} if i_ <= nin):
             ctx.run({'tx': t, 'script': '76a914' + '11' * 20 + '88ac', 'idx': idx, 'mutable': bool(idx % 2), 'hts': [1, 2, 3, 0x81, 0x82, 0x83, 0]})
+    # subscripts far longer than anything a standard script has (the digest is defined for every subscript that parses: no
+    # size rule of the interpreter applies to hashing), with CODESEPARATORs to remove
+    longs = [(9999, 0), (10000, 0), (10001, 0), (10001, 1), (10002, 2), (20000, 3), (65535, 0), (65536, 1), (70000, 5), (100000, 0)]
+    for k, (L, nsep) in enumerate(longs):
+        if k % ctx.nshards == ctx.shard:
+            body = bytearray(b'\x51\x02\xab\xab\x75\x4c\x03\xab\x01\x02\x76' * (L // 11))
+            body += b'\x51' * (L - len(body))
+            for j in range(nsep):
+                body[(j * 1013 + 22) % (L - 30) // 11 * 11] = 0xab            # an executed-position separator (start of a period)
+            t = {'version': 1, 'vin': [['07' * 32, 1, '', 0xfffffffe], ['08' * 32, 0, '51', 5]], 'vout': [[1, '51'], [2, '52']], 'wit': None, 'locktime': 3}
+            ctx.run({'tx': t, 'script': bytes(body).hex(), 'idx': k % 2, 'mutable': bool(k % 3 == 0), 'hts': [1, 2, 3, 0x81, 0x83, 0, 0x43]})
     if ctx.shard == 0:
+        ctx.exhaustive.append('subscripts of 9,999 .. 100,000 bytes with 0..5 code separators (7 hash types)')
         ctx.exhaustive.append('all 256 hash-type bytes for every generated (transaction, subscript, index) triple')
 
 
